@@ -69,6 +69,26 @@ def run(ctx):
         ctx.case("met-before", (repr(va), repr(vb), impl.show_expr(e)))
         ans = drv.ask(f"exprcheck {core.elist([va, vb], impl.shape_tokens_of_vertices)} {impl.enc_expr(e)} {core.eshape(R)}")
         ctx.check(ans == "ok", "operands moved in place after an earlier operation: result region differs from the pointwise meaning", {**desc, "witness": ans})
+    # ---- an UNBOUNDED simple operand that was drawn point-reflected, used, and reflected onto its place in place (scale(-1,-1)), against a bounded one
+    from harness import shapes as shp_
+    for it in range(4 if ctx.quick else 60):
+        va, vb = impl.leaf_family(ctx, 2, pinv=0.0)
+        va = va[::-1]                                  # clockwise: the complement of a polygon
+        A, hname = shp_.vary_history(rng, impl.poly(va), ("S", va), variant="reflected-in-place" if it % 2 == 0 else "scaled-in-place")
+        B = impl.poly(vb)
+        for opn in ("or", "and", "sub", "xor"):
+            e = ("B", opn, ("L", 0), ("L", 1))
+            desc = {"leaves": [va, vb], "expr": impl.show_expr(e), "family": "unbounded-operand-with-history", "history": hname}
+            ctx.case("unbounded-history", (repr(va), repr(vb), opn))
+            try:
+                with impl.time_limit(60):
+                    R = impl.eval_expr(e, [A, B])
+            except impl.Timeout:
+                ctx.fail("operator did not return within 60 s", desc); continue
+            except Exception as ex:
+                ctx.fail("operator raised on transversal operands", desc, got=repr(ex)); continue
+            ans = drv.ask(f"exprcheck {core.elist([va, vb], impl.shape_tokens_of_vertices)} {impl.enc_expr(e)} {core.eshape(R)}")
+            ctx.check(ans == "ok", "result region differs from the pointwise meaning", {**desc, "witness": ans})
     # ---- deterministic: a drawing at unit 1/5000 in which a point the library evaluates lies 1.0e-7 from another edge (finding K8), and the same at unit 1
     from fractions import Fraction as F_
     K8 = [[("2/625", "1/1000"), ("-2/625", "11/2500"), ("-23/5000", "1/200"), ("-1/200", "-17/5000"), ("-23/5000", "-1/250"), ("1/1000", "-3/5000")],
